@@ -14,7 +14,7 @@ import fastavro._write_py as W
 SCHEMAS = [n for n, t, s in family.family() if not n.startswith("prim_") or n in ("prim_int", "prim_dict_long")]
 QUICK = ["rec_flat", "err_type", "enum", "fixed", "pair_array_record", "pair_map_union", "union_named_mix", "ref_after_def",
          "ns_inherit", "ns_dotted", "ns_switch", "ns_null", "rec_list", "rec_mutual", "rec_defaults2", "chain_rec_union_rec_arr",
-         "prim_dict_long"]
+         "prim_dict_long", "err_nested", "rec_two_children", "map_named_twice", "map_defines_named", "enum_default"]
 
 
 def dict_positions(s, path=()):
